@@ -311,6 +311,7 @@ class Sim(FAM.FamilyMixin):
     DEFAULTS = DEFAULTS
     pack_vals = staticmethod(pack_vals)
     fresh_value = staticmethod(fresh_value)
+    wrap = staticmethod(wrap)
     to_real = staticmethod(to_real)
 
     def __init__(self, plan):
